@@ -184,7 +184,8 @@ def run_case(rs, ctx):
         spec = simgen.gen_big_simulation(rs, is_quick=False)
         ctx.count("multi_chunk_simulations")
     else:
-        spec = simgen.gen_simulation(rs, n_rows=(20, 200) if ctx.index % 4 == 0 else (20, 70), absent_arm=absent)
+        spec = simgen.gen_simulation(rs, n_rows=(20, 200) if ctx.index % 4 == 0 else (20, 70),
+                                     absent_arm=("never" if ctx.index % 6 == 3 else True) if absent else False)
     if absent and not big:
         spec["params"]["is_ordered"] = True
     p = spec["params"]
